@@ -259,7 +259,7 @@ func expect(p *Pool, o Op) Expect {
 				return one("Duplicated Name")
 			}
 		}
-		return Expect{LayoutMaybe: v.Index() > e.MaxIndex()}
+		return enumGrowExpect(e, v.Index())
 	case "EnumRemoveValue":
 		e, id := p.enum(a(0)), p.eid(a(1))
 		for _, x := range e.Values() {
@@ -291,12 +291,58 @@ func expect(p *Pool, o Op) Expect {
 					return one("Duplicated UpdateIndex")
 				}
 			}
-			return Expect{LayoutMaybe: idx > e.MaxIndex()}
+			newMax := idx
+			for _, x := range e.Values() {
+				if x != v && x.Index() > newMax {
+					newMax = x.Index()
+				}
+			}
+			if idx < 0 {
+				return Expect{LayoutMaybe: idx > e.MaxIndex()}
+			}
+			return enumGrowExpect(e, newMax)
 		}
 	default:
 		return expectExtra(p, o)
 	}
 	return Expect{}
+}
+
+// enumGrowExpect: the enum gets the maximum index newMax.  Its size is max(minimum size, bit length of
+// the maximum index); when the size does not change nothing may be refused for lack of space (and
+// nothing may move); when it grows by d, every referencing signal grows by d in its own layout, judged
+// by the brute-force free-space predicate (two references in one layout: finding D36, not generated)
+func enumGrowExpect(e *acme.SignalEnum, newMax int) Expect {
+	if newMax <= e.MaxIndex() {
+		return Expect{}
+	}
+	if newMax < 0 {
+		return Expect{LayoutMaybe: true}
+	}
+	d := enumSizeFor(e, newMax) - e.GetSize()
+	if d <= 0 {
+		return Expect{}
+	}
+	for _, r := range e.References() {
+		if ex := growExpect(r, d); len(ex.Refusals) > 0 {
+			return ex
+		}
+	}
+	return Expect{}
+}
+
+func enumSizeFor(e *acme.SignalEnum, maxIdx int) int {
+	n := 0
+	for v := maxIdx; v > 0; v >>= 1 {
+		n++
+	}
+	if n == 0 {
+		n = 1
+	}
+	if e.MinSize() > n {
+		n = e.MinSize()
+	}
+	return n
 }
 
 // busHasStatic: some message sent on the bus (other than `except`) has the static CAN-ID c
